@@ -66,13 +66,14 @@ PROPS["C02"] = {
 }
 
 PROPS["C03"] = {
+    "replay_retries": 4,
     "level": "translation_validation",
     "harness": ["C03_"],
     "tiers": {
-        "quick": {"timeout": "20s", "maxsteps": 8000000, "bounds": "twin compile (with / without dead-code elimination) of 12 dead-code programs + 44 catalog + 9 failing programs, inputs a,b int64 (or -1..3 where they bound loops), c bool: identical globals, identical error text incl. positions; optimizer lemma on arbitrary streams of 2..3 instructions from {TRUE,POP,RET 0/1,JMP,JMPF,ANDJMP,ORJMP,GETL} with jump targets case-split over every instruction boundary and the end. Generated grammar family (gen.go): every statement sequence of <= 2 nodes from 10 atoms (r += x, x = y + 1, y++, m.k += x, block-scoped declaration, immediately-invoked closure reading a captured variable, closure writing a captured variable, break, continue, return) and 8 wrappers (if, if-else, if with init, 3-clause for, for-in, condition-only for, endless for with break, function literal + call), plus every nesting W(W'(atom)), rendered in 4 variable-placement contexts (top level: globals; function body: parameters/locals; closure: captured parameter/locals; loop inside a function) - 1029 programs, inputs a, b full int64 and c bool symbolic: twin compile of each", "cross": 1},
+        "quick": {"timeout": "20s", "maxsteps": 8000000, "bounds": "twin compile (with / without dead-code elimination) of 12 dead-code programs + 44 catalog + 9 failing programs, inputs a,b int64 (or -1..3 where they bound loops), c bool: identical globals, identical error text incl. positions; optimizer lemma on arbitrary streams of 2..3 instructions from {TRUE,POP,RET 0/1,JMP,JMPF,ANDJMP,ORJMP,GETL} with jump targets case-split over every instruction boundary and the end. Generated grammar family (gen.go): every statement sequence of <= 2 nodes from 10 atoms (r += x, x = y + 1, y++, m.k += x, block-scoped declaration, immediately-invoked closure reading a captured variable, closure writing a captured variable, break, continue, return) and 8 wrappers (if, if-else, if with init, 3-clause for, for-in, condition-only for, endless for with break, function literal + call), plus every nesting W(W'(atom)), rendered in 4 variable-placement contexts (top level: globals; function body: parameters/locals; closure: captured parameter/locals; loop inside a function) - 1029 programs, inputs a, b full int64 and c bool symbolic: twin compile of each; twin compile of the generated failing programs (one failing statement - int + undefined, -map, for-in over an int, call of an int - at every atom position of every sequence of <= 2 nodes, every nesting W(W'(fail)), and directly after eliminated code W(exit; atom); fail), under both Go-map iteration orders the engine offers", "cross": 1},
         "thorough": {"timeout": "60s", "maxsteps": 8000000, "bounds": "as quick; optimizer lemma on streams of 2..5 instructions. Generated grammar family (gen.go): every statement sequence of <= 3 nodes (10 atoms, 8 wrappers) in 4 variable-placement contexts - 9262 programs, inputs a, b full int64 and c bool symbolic: twin compile of each", "cross": 2},
     },
-    "reach": {"C03_TwinGen": ["twingen"], "C03_TwinDead": ["twin"], "C03_TwinCatalog": ["twincat"], "C03_Lemma": ["lemma"]},
+    "reach": {"C03_TwinGen": ["twingen"], "C03_TwinFail": ["twinfail"], "C03_TwinDead": ["twin"], "C03_TwinCatalog": ["twincat"], "C03_Lemma": ["lemma"]},
     "assumptions": [
         "the unoptimized twin is produced by an overlay of compiler.go generated from the current file (optimizeFunc renamed, a switch added that only appends the trailing return); if the anchor is missing the check reports itself broken",
         "in the lemma, jump targets are finite-domain choices, not wide variables: it is an exhaustive case split within the stream-length bound",
@@ -156,10 +157,10 @@ PROPS["C04"] = {
     "level": "model_checking",
     "harness": ["C04_"],
     "tiers": {
-        "quick": {"timeout": "20s", "maxsteps": 12000000, "casecap": 128, "bounds": "every byte string of length 1..3 (all 256 values per byte) as script source, 1..2 as module body; scanner progress on every byte string of length 1..2; 5 seed programs (one ending in block + line comments) with one arbitrary byte replaced or inserted at every position; 13 literal/comment openers (/* // \" ` ' 0x 1e 1. a. ...) followed by 1..2 arbitrary bytes; 7 templates whose identifier is 1..4 arbitrary identifier-shaped bytes; 20 templates x 17 identifier substitutions x 13 statement substitutions x 4 configurations (module maps, predeclared variables)", "cross": 2},
+        "quick": {"timeout": "20s", "maxsteps": 12000000, "casecap": 128, "bounds": "every byte string of length 1..3 (all 256 values per byte) as script source, 1..2 as module body; scanner progress on every byte string of length 1..2; 5 seed programs (one ending in block + line comments) with one arbitrary byte replaced or inserted at every position; 13 literal/comment openers (/* // \" ` ' 0x 1e 1. a. ...) followed by 1..2 arbitrary bytes; 7 templates whose identifier is 1..4 arbitrary identifier-shaped bytes; 20 templates x 17 identifier substitutions x 13 statement substitutions x 4 configurations (module maps, predeclared variables); repetition: an arbitrary unit of 1 byte (2 thorough) repeated 1,2,9..13,20 times, directly or one per line, after 11 literal/comment/bracket openers and before 4 endings, through parser.NewParser/ParseFile and Script.Compile", "cross": 2},
         "thorough": {"timeout": "60s", "maxsteps": 12000000, "casecap": 128, "bounds": "byte strings of length 1..4 (module body 1..3); 10 seed programs with one arbitrary byte replaced/inserted; templates as quick", "cross": 3},
     },
-    "reach": {"C04_Bytes": ["bytes"], "C04_ModuleBody": ["module"], "C04_SeedHole": ["seedhole"], "C04_Openers": ["openers"], "C04_Templates": ["templates"], "C04_ScannerProgress": ["scanner"], "C04_SymIdent": ["symident"]},
+    "reach": {"C04_Repeat": ["repeat"], "C04_Bytes": ["bytes"], "C04_ModuleBody": ["module"], "C04_SeedHole": ["seedhole"], "C04_Openers": ["openers"], "C04_Templates": ["templates"], "C04_ScannerProgress": ["scanner"], "C04_SymIdent": ["symident"]},
     "assumptions": [
         "unicode.IsLetter/IsDigit/IsSpace on a symbolic (non-ASCII) rune are uninterpreted predicates of the rune (over-approximation, sound for totality; counterexamples are replayed natively)",
         "the template family is a finite-domain case split (no wide variable); the byte families are decided for all 256 values of every byte",
@@ -215,10 +216,11 @@ PROPS["C13"] = {
 }
 
 PROPS["C14"] = {
+    "replay_retries": 4,
     "level": "model_checking",
     "harness": ["C14_"],
     "tiers": {
-        "quick": {"timeout": "20s", "maxsteps": 40000000, "bounds": "systematic placement of the failing statement (C14_Marked): 7 failing forms x {main, function, module body, module function} x {at byte 0, after a lead statement} x 4 dead-code prefixes x 4 tails (no return / return / return + dead code) x {1, 2 modules} x {run once, twice}, expected file and line computed from a marker; 4 multi-line programs (flat, calls nested 3 deep, dead code after returns/continues that shifts instruction offsets, loop + closure) where a symbolic input selects the failing operation; a module program; 6 sentinel/host-error cases; through Run and RunContext. Generated failing programs (gen.go): one statement per line, one failing statement (int + undefined) substituted at every atom position of every sequence of <= 2 nodes and every nesting W(W'(fail)), 4 contexts - 294 programs; whenever the run fails the whole trace (failing line, then the call line of each enclosing function literal and context function, innermost first) must equal the lines computed from the construction", "cross": 2},
+        "quick": {"timeout": "20s", "maxsteps": 40000000, "bounds": "systematic placement of the failing statement (C14_Marked): 7 failing forms x {main, function, module body, module function} x {at byte 0, after a lead statement} x 4 dead-code prefixes x 4 tails (no return / return / return + dead code) x {1, 2 modules} x {run once, twice}, expected file and line computed from a marker; 4 multi-line programs (flat, calls nested 3 deep, dead code after returns/continues that shifts instruction offsets, loop + closure) where a symbolic input selects the failing operation; a module program; 6 sentinel/host-error cases; through Run and RunContext. Generated failing programs (gen.go): one statement per line, one failing statement (int + undefined) substituted at every atom position of every sequence of <= 2 nodes and every nesting W(W'(fail)), 4 contexts - 294 programs; whenever the run fails the whole trace (failing line, then the call line of each enclosing function literal and context function, innermost first) must equal the lines computed from the construction; four failing forms (int + undefined, -map, for-in over an int, call of an int), also placed directly after eliminated code, 1640 programs, under both Go-map iteration orders the engine offers", "cross": 2},
         "thorough": {"timeout": "60s", "maxsteps": 40000000, "bounds": "as quick. Generated failing programs: sequences of <= 3 nodes - 1840 programs", "cross": 3},
     },
     "reach": {"C14_Gen": ["gen", "gen-nofail"], "C14_Positions": ["positions"], "C14_Module": ["module"], "C14_Unwrap": ["unwrap"], "C14_Marked": ["marked"]},
